@@ -18,7 +18,7 @@ PROPS = {
         ],
     ),
     'C05': dict(
-        verus=['compression', 'converter'],
+        verus=['compression', 'converter', 'mbtiles_pyramid'],
         kani=['tile_converter'],
         not_decided=[
             'Accept-Encoding header substring matching, URL splitting and parse::<u32>, status-code mapping, axum/hyper framing',
